@@ -92,14 +92,26 @@ func VerifH_C15_producer() {
 	globalHQ.wg.Add(1)
 	go producer()
 	n := 1 + verifrt.Choice("items-1", 2)
+	early := verifrt.Choice("items-before-first-timer", n+1) // how many outlinks arrive before the flush timer fires first
 	hops := make([]int, n)
-	for i := 0; i < n; i++ {
+	feed := func(i int) {
 		hops[i] = int(verifrt.IntRange("hops", 0, 2))
 		it := models.NewItem("id"+string(rune('0'+i)), &models.URL{Raw: "http://o.example/" + string(rune('a'+i)), Hops: hops[i]}, "http://parent.example/")
 		produce <- it
 	}
-	verifrt.Quiesce()   // everything fed has been picked up (the real ticker keeps firing; here firings are granted explicitly)
-	verifrt.EnvTicks(1) // the flush timer fires once more: a batch that is not full goes out
+	for i := 0; i < early; i++ {
+		feed(i)
+	}
+	verifrt.Quiesce()   // everything fed so far has been picked up (the real ticker keeps firing; here firings are granted explicitly)
+	verifrt.EnvTicks(1) // the flush timer fires: a batch that is not full goes out (and may be retried while more outlinks arrive)
+	if !verifrt.Symbolic() && early > 0 && early < n {
+		time.Sleep(5500 * time.Millisecond) // native: let the real 5 s timer flush the first part before the rest arrives
+	}
+	for i := early; i < n; i++ {
+		feed(i)
+	}
+	verifrt.Quiesce()
+	verifrt.EnvTicks(1)
 	verifrt.Quiesce()
 	if !verifrt.Symbolic() {
 		// native: wait for the 5 s flush timer and the 1 s + 2 s back-off
@@ -131,6 +143,9 @@ func VerifH_C15_producer() {
 	if n%batchSize != 0 {
 		verifrt.Cover("timer-flush")
 	}
+	if early > 0 && early < n && nFaults > 0 {
+		verifrt.Cover("outlink-arrives-during-retry")
+	}
 	for i := 0; i < n; i++ {
 		cnt := 0
 		for _, b := range added {
@@ -142,7 +157,9 @@ func VerifH_C15_producer() {
 				}
 			}
 		}
-		verifrt.Assert(cnt == 1, "C15 every outlink reaches a successful HQ add exactly once despite HQ errors")
+		// the scenario is part of the label so that each scenario's counterexample gets its own native replay
+		verifrt.Assert(cnt == 1, "C15 every outlink reaches a successful HQ add exactly once despite HQ errors [items="+
+			string(rune('0'+n))+" before-timer="+string(rune('0'+early))+" failing-calls="+string(rune('0'+nFaults))+" batch="+string(rune('0'+batchSize))+"]")
 	}
 	cancel()
 	globalHQ.wg.Wait()
